@@ -12,7 +12,11 @@ Observation points (none of them shares code with ``onnx_ir.external_data``):
 (i)   ``MonTensor`` - an own TensorProtocol implementation whose ``tofile/tobytes/numpy`` log
       enter/exit events into the monitor's log (logical clock = position in the log, appended
       under the monitor's own lock).  Logged intervals are subsets of the real evaluation
-      intervals, so an overlap in the log is a real overlap.
+      intervals, so an overlap in the log is a real overlap.  The same events are logged by
+      subclasses of every library tensor class a user can share between initializers
+      (``ir.Tensor`` over an ndarray or over a framework array materialised on demand,
+      ``ir.LazyTensor``, ``ir.ExternalTensor``, ``ir.PackedTensor``; see ``BASES``), whose real
+      base-class methods produce the bytes.
 (ii)  ``MonBudget`` - subclass of the real ``_ByteBudget`` (substituted through the module
       attribute) whose ``acquire/release`` call the real methods and afterwards read the real
       counters under the budget's own condition lock; its condition is replaced by a counting
@@ -46,6 +50,12 @@ STALL_S = 3.0  # silence (no monitor event) after which the watchdog samples the
 SAMPLE_GAP_S = 0.5  # distance between the two samples
 CONFIRM_GAP_S = 1.0  # a third, confirming sample is taken this much later
 HARD_SAVE_S = 40.0  # a save still running after this without a structural diagnosis: inconclusive
+# tensor classes a user can share between initializers: an own TensorProtocol implementation, an ir.Tensor
+# subclass over an ndarray, an ir.Tensor subclass over a framework (non-ndarray) array that materialises in
+# tobytes/tofile (the shape of tensor_adapters.TorchTensor), ir.LazyTensor, ir.ExternalTensor, ir.PackedTensor
+BASES = ("protocol", "tensor", "adapter", "lazy", "external", "packed")
+BASE_NAMES = {"protocol": "TensorProtocol-object", "tensor": "ir.Tensor-subclass", "adapter": "ir.Tensor-subclass-materialising",
+              "lazy": "ir.LazyTensor", "external": "ir.ExternalTensor", "packed": "ir.PackedTensor"}
 PROFILES = ("uniform", "pct", "pct", "stall_worker", "stall_oversized", "stall_shared", "fast_fail")
 
 
@@ -169,13 +179,27 @@ def gen_spec(rng: random.Random) -> dict:
     # entry point: ir.save (-> unload_from_model) or the public tensor-level writer; ir.save only
     # externalises tensors with nbytes > size_threshold_bytes, so zero-byte tensors need -1 there
     api = "convert" if mode == "single" and rng.random() < 0.3 else "save"
+    # tensor class of every object (own random stream, so the other dimensions keep their distribution)
+    profile, p_yield = rng.choice(PROFILES), rng.choice([0, 0, 0.02, 0.1, 0.3])
+    data_seed = rng.getrandbits(32)
+    brng = random.Random(f"{data_seed}:base")
+    for od in objs:
+        od["base"] = brng.choice(BASES + BASES[:1])
+        od["lazy_cache"] = brng.random() < 0.4
+        od["src_offset"] = brng.choice([0, 0, 8, 24])
+    if brng.random() < 0.35:
+        # every object that backs several initializers (or, failing that, one object) is of ONE non-protocol class
+        b = brng.choice(BASES[1:])
+        multi = [o for o in range(n_obj) if uses.count(o) > 1] or [brng.randrange(n_obj)]
+        for o in multi:
+            objs[o]["base"] = b
     return {
         "cb_fail": cb_fail,
         "mode": mode, "layout": layout, "api": api, "threshold": -1 if 0 in sizes else 0,
         "objs": objs, "uses": uses, "budget": budget, "workers": workers,
         "max_shard": max_shard, "alignment": alignment, "align_threshold": align_threshold,
-        "fail": fail, "profile": rng.choice(PROFILES), "p_yield": rng.choice([0, 0, 0.02, 0.1, 0.3]),
-        "data_seed": rng.getrandbits(32),
+        "fail": fail, "profile": profile, "p_yield": p_yield,
+        "data_seed": data_seed,
     }
 
 
@@ -290,14 +314,185 @@ class MonTensor(MonTensorNoFile):
         self._eval("tofile", file)
 
 
-def build_model(spec: dict, box: _Box, faults: bool):
+class _MonHooks:
+    """Mixin for monitor tensors derived from the library's OWN tensor classes: the public
+    ``numpy/tobytes/tofile`` of the subclass log the same enter/exit events as ``MonTensor`` around
+    the real method of the base class (which produces/writes the real bytes).  Only the outermost
+    call of a thread on the object is logged (``ir.Tensor.tofile`` may call ``tobytes`` and that
+    ``numpy``), so one use by the writer is one interval."""
+
+    def _vf_setup(self, label: int, nbytes: int, box: _Box, fail, shared: bool, chunks: bool) -> None:
+        self.label = label
+        self._vf_n = nbytes
+        self._box = box
+        self.fail = fail
+        self.shared = shared
+        self.chunks = chunks
+        self._vf_depth: dict[int, int] = {}  # thread ident -> 1 while that thread is inside a logged call
+
+    def _exc(self):
+        cls = InjectedBaseFailure if self.fail[1] == "base" else InjectedFailure
+        return cls(f"injected failure of t{self.label}")
+
+    def _vf_wrap(self, method: str, real, *args):
+        mon = self._box.mon
+        ident = threading.get_ident()
+        if mon is None or self._vf_depth.get(ident):
+            return real(self, *args)
+        self._vf_depth[ident] = 1
+        n = self._vf_n
+        try:
+            mon.log("t_enter", self.label, n, method)
+            how = "t_error"
+            try:
+                try:
+                    mon.pause("t_in", self)
+                    if self.fail and self.fail[0] == "early":
+                        raise self._exc()
+                    r = real(self, *args)
+                    if self.chunks or (self.fail and self.fail[0] == "mid"):
+                        mon.pause("t_mid", self)
+                    if self.fail and self.fail[0] in ("mid", "late"):
+                        raise self._exc()
+                except (InjectedFailure, InjectedBaseFailure):
+                    how = "t_raise"
+                    raise
+                how = "t_exit"
+                return r
+            finally:
+                mon.log(how, self.label, n, method)
+        finally:
+            del self._vf_depth[ident]
+
+
+def _monitored(cls):
+    """Class decorator: route the three evaluating methods through ``_vf_wrap``."""
+    def make(name, real):
+        def method(self, *args):
+            return self._vf_wrap(name, real, *args)
+        method.__name__ = name
+        return method
+
+    for name in ("numpy", "tobytes", "tofile"):
+        setattr(cls, name, make(name, getattr(cls, name)))
+    return cls
+
+
+@_monitored
+class MonIrTensor(_MonHooks, ir.Tensor):
+    """``ir.Tensor`` subclass over an ndarray."""
+
+    def __init__(self, data: bytes, itemsize: int, name: str):
+        dtype, npdt = _DTYPES[itemsize]
+        super().__init__(np.frombuffer(data, dtype=npdt), dtype=dtype, name=name)
+
+
+class _FrameworkArray:
+    """Stands for a framework tensor: array-compatible, not an ndarray; converted when asked."""
+
+    def __init__(self, data: bytes, npdt):
+        self.data = data
+        self.npdt = npdt
+        self.shape = (len(data) // np.dtype(npdt).itemsize,)
+
+    def __array__(self, dtype=None, copy=None):
+        arr = np.frombuffer(self.data, dtype=self.npdt)
+        return arr if dtype is None else arr.astype(dtype)
+
+
+class _AdapterBase(ir.Tensor):
+    """``ir.Tensor`` subclass that materialises the framework tensor in tobytes/tofile (the shape of
+    ``tensor_adapters.TorchTensor``)."""
+
+    def __init__(self, data: bytes, itemsize: int, name: str):
+        dtype, npdt = _DTYPES[itemsize]
+        super().__init__(_FrameworkArray(data, npdt), dtype=dtype, name=name)
+
+    def numpy(self):
+        return self.raw.__array__()
+
+    def tobytes(self) -> bytes:
+        return bytes(self.raw.data)
+
+    def tofile(self, file) -> None:
+        file.write(bytes(self.raw.data))
+
+
+@_monitored
+class MonAdapterTensor(_MonHooks, _AdapterBase):
+    pass
+
+
+@_monitored
+class MonAdapterTensorNoFile(_MonHooks, _AdapterBase):
+    """Overrides only tobytes; the inherited ``ir.Tensor.tofile`` falls back to it."""
+
+    tofile = ir.Tensor.tofile
+
+
+@_monitored
+class MonLazyTensor(_MonHooks, ir.LazyTensor):
+    def __init__(self, data: bytes, itemsize: int, name: str, cache: bool):
+        dtype, npdt = _DTYPES[itemsize]
+        super().__init__(lambda: ir.Tensor(np.frombuffer(data, dtype=npdt), dtype=dtype, name=name),
+                         dtype=dtype, shape=ir.Shape([len(data) // itemsize]), cache=cache, name=name)
+
+
+@_monitored
+class MonExternalTensor(_MonHooks, ir.ExternalTensor):
+    """Backed by a source file of its own (never the destination of the save)."""
+
+    def __init__(self, data: bytes, itemsize: int, name: str, src_dir: str, prefix: int):
+        dtype, _ = _DTYPES[itemsize]
+        os.makedirs(src_dir, exist_ok=True)
+        location = f"{name}.bin"
+        path = os.path.join(src_dir, location)
+        if not os.path.exists(path):
+            with open(path, "wb") as f:
+                f.write(b"\xee" * prefix + data + b"\xee" * 5)
+        super().__init__(location, prefix, len(data), dtype, shape=ir.Shape([len(data) // itemsize]),
+                         name=name, base_dir=src_dir)
+
+
+@_monitored
+class MonPackedTensor(_MonHooks, ir.PackedTensor):
+    def __init__(self, data: bytes, name: str):
+        super().__init__(np.frombuffer(data, dtype=np.uint8), ir.DataType.UINT4, shape=[2 * len(data)], name=name)
+
+
+def _make_tensor(o: int, od: dict, data: bytes, box: _Box, fail, shared: bool, src_dir: str | None):
+    base = od.get("base", "protocol")
+    if base == "external" and src_dir is None:
+        base = "protocol"
+    if base == "protocol":
+        cls = MonTensor if od["tofile"] else MonTensorNoFile
+        return cls(o, data, od["itemsize"], box, fail, shared, od["chunks"])
+    name = f"t{o}"
+    if base == "tensor":
+        t = MonIrTensor(data, od["itemsize"], name)
+    elif base == "adapter":
+        t = (MonAdapterTensor if od["tofile"] else MonAdapterTensorNoFile)(data, od["itemsize"], name)
+    elif base == "lazy":
+        t = MonLazyTensor(data, od["itemsize"], name, bool(od.get("lazy_cache")))
+    elif base == "external":
+        t = MonExternalTensor(data, od["itemsize"], name, src_dir, od.get("src_offset", 0))
+    elif base == "packed":
+        t = MonPackedTensor(data, name)
+    else:
+        raise ValueError(f"unknown tensor base {base!r}")
+    t._vf_setup(o, len(data), box, fail, shared, od["chunks"])
+    if t.nbytes != len(data):
+        raise RuntimeError(f"harness: {type(t).__name__} reports nbytes={t.nbytes} for {len(data)} bytes")
+    return t
+
+
+def build_model(spec: dict, box: _Box, faults: bool, src_dir: str | None = None):
     shared = Counter(spec["uses"])
     tensors = []
     for o, od in enumerate(spec["objs"]):
         data = random.Random(f"{spec['data_seed']}:{o}").randbytes(od["size"])
-        cls = MonTensor if od["tofile"] else MonTensorNoFile
         fail = spec["fail"].get(str(o)) if faults else None
-        tensors.append(cls(o, data, od["itemsize"], box, fail, shared[o] > 1, od["chunks"]))
+        tensors.append(_make_tensor(o, od, data, box, fail, shared[o] > 1, src_dir))
     values = [
         ir.Value(name=f"w{i}", const_value=tensors[o], shape=tensors[o].shape,
                  type=ir.TensorType(tensors[o].dtype))
@@ -581,6 +776,7 @@ def analyse(spec: dict, events: list, outcome: str, ret_clk: int):
     def bad(sig: str, msg: str) -> None:
         viol.setdefault(sig, msg)
 
+    n_backs = Counter(uses)
     cb_active: dict[int, int] = {}
     cb_count: Counter = Counter()
     cb_obj: Counter = Counter()
@@ -624,9 +820,12 @@ def analyse(spec: dict, events: list, outcome: str, ret_clk: int):
             obj_active[a] += 1
             evaluating += 1
             st["max_eval"] = max(st["max_eval"], evaluating)
+            base = spec["objs"][a].get("base", "protocol")
+            if n_backs[a] > 1:
+                st["shared_evals_" + base] += 1
             if obj_active[a] > 1:
-                bad(f"same-tensor-concurrent|{mode}",
-                    f"tensor object t{a} (backs {uses.count(a)} initializers) entered {c} on T{thr} while "
+                bad(f"same-tensor-concurrent|{mode}|{BASE_NAMES[base]}",
+                    f"tensor object t{a} ({BASE_NAMES[base]}, backs {uses.count(a)} initializers) entered {c} on T{thr} while "
                     f"another evaluation of the same object was in progress: {_window(events, clk)}")
             mat += b
             st["zero_byte_evals"] += 1 if b == 0 else 0
@@ -761,11 +960,12 @@ def run_case(seed: int, case: int, rep: int, tmp_root: str, spec: dict | None = 
     os.makedirs(a)
     os.makedirs(b)
     try:
-        model0, tensors0 = build_model(spec, _Box(None), faults=False)
+        src = os.path.join(d, "src")  # source files of ExternalTensor-based objects (read by both saves)
+        model0, tensors0 = build_model(spec, _Box(None), faults=False, src_dir=src)
         ret_serial = _save(model0, tensors0, a, spec)  # serial reference: no workers, no monitor, no faults
 
         mon = Monitor(spec, sched_rng)
-        model, tensors = build_model(spec, _Box(mon), faults=True)
+        model, tensors = build_model(spec, _Box(mon), faults=True, src_dir=src)
 
         def callback(tensor, info):
             mon.log("cb_enter", info.index, getattr(tensor, "label", None),
@@ -864,6 +1064,7 @@ def run_case(seed: int, case: int, rep: int, tmp_root: str, spec: dict | None = 
                 "driver_and_pool": st["driver_and_pool_writers"], "obj_driver_and_pool": st["object_shared_by_driver_and_pool"],
                 "shared_evals": sum(1 for e in events if e[2] == "t_enter" and spec["uses"].count(e[3]) > 1),
                 "cap_mismatch": sum(1 for x in budget_end if x[2] != max(spec["budget"], 1)),
+                "shared_evals_by_base": {b: st["shared_evals_" + b] for b in BASES},
             },
             "restart": dirty,
             "ms": round((time.monotonic() - t0) * 1000),
